@@ -31,6 +31,9 @@ const (
 	c34F9 = "peerPubkey-noncanonical-string-duplicate-pool-entry"
 )
 
+// the statement's "at least four" (a literal here, not the contract's constant)
+const minPeerNumC34 = 4
+
 func genC34(t *rapid.T) c34Case {
 	n := rapid.IntRange(4, ev.Scale(8, 16)).Draw(t, "n")
 	c := c34Case{N: n, MBCV: rapid.SampledFrom([]int{60000, 60000, 3, 6}).Draw(t, "mbcv"), Own: rapid.SampledFrom([]int{0, 0, 0, 1, 2, 3, 4}).Draw(t, "own"),
@@ -351,8 +354,8 @@ func c34Invariants(e *eng, m *c34Model, p poolObs, what string, op gop) {
 			ctx.Failf("after %s: pool entry %s has unknown status %d", what, short(k), it.Status)
 		}
 	}
-	if len(activeKeys) < node_manager.MIN_PEER_NUM {
-		attribute(anyNonCanon && activeEntries >= node_manager.MIN_PEER_NUM,
+	if len(activeKeys) < minPeerNumC34 {
+		attribute(anyNonCanon && activeEntries >= minPeerNumC34,
 			"after %s: the pool has %d active members (%d active entries), fewer than four", what, len(activeKeys), activeEntries)
 	}
 }
